@@ -225,6 +225,11 @@ class Env(object):
                 # obj.set(**two attributes): first int attr together with first key-ish / reference attr
                 plain = [a for cls, a in all_attrs if cls is e and not a.is_collection and not a.is_pk
                          and not a.is_discriminator and not a.reverse and self.scalar_domain(a)]
+                refs_ = [a for cls, a in all_attrs if cls is e and a.reverse and not a.is_collection]
+                if refs_ and plain:
+                    r0, p0 = refs_[0], plain[-1]
+                    for tgt in self.labels_of(r0.py_type.__name__):
+                        ops.append(('setm', lbl, ((r0.name, ('ref', tgt)), (p0.name, self.scalar_domain(p0)[-1]))))
                 if len(plain) >= 2:
                     a1, a2 = plain[0], plain[1]
                     for v1, v2 in ((self.scalar_domain(a1)[-1], self.scalar_domain(a2)[-1]),
@@ -238,6 +243,22 @@ class Env(object):
         ops += [('flush',), ('commit',), ('rollback',), ('end',), ('raise',)]
         self._ops = ops
         return ops
+
+    def shaping_reads(self):
+        """reads used as history operations because they change the cache state a later operation starts
+        from: navigation to an unloaded reference (the program then holds a seed object), count(),
+        is_empty(), membership test (partial loads) and iteration (full load) of collections"""
+        R = []
+        for root in self.root_entities:
+            e = self.E[root]
+            for lbl in self.labels_of(root):
+                for cls in [e] + sorted(e._subclasses_, key=lambda c: c.__name__):
+                    for a in cls._new_attrs_:
+                        if a.is_collection:
+                            R += [('r_ccount', lbl, a.name), ('r_cempty', lbl, a.name), ('r_citer', lbl, a.name),
+                                  ('r_cin', lbl, a.name, self.labels_of(a.py_type.__name__)[0])]
+                        elif a.reverse: R.append(('r_attr', lbl, a.name))
+        return R
 
     def reads(self):
         if self._reads is not None: return self._reads
@@ -558,7 +579,13 @@ class Exec(object):
     def op_r_attr(self, label, attr):
         obj = self.resolve(label)
         if not hasattr(type(obj), attr): raise Skip(label)
-        return getattr(obj, attr)
+        v = getattr(obj, attr)
+        from pony.orm.core import Entity
+        if isinstance(v, Entity):
+            # the program now holds the object it navigated to (possibly an unloaded seed)
+            l = self.label_of(v)
+            if l not in self.refs: self.remember(l, v)
+        return v
     def op_r_clen(self, label, attr): return len(self._coll(label, attr))
     def op_r_ccount(self, label, attr): return self._coll(label, attr).count()
     def op_r_cempty(self, label, attr): return self._coll(label, attr).is_empty()
@@ -594,6 +621,20 @@ class Exec(object):
                     if a.is_discriminator: continue
                     d[a.name] = self.cv(getattr(obj, a.name))
                 out[label] = d
+        return out
+
+    def op_view_counts(self):
+        """count() and is_empty() of every collection of every universe object, asked BEFORE anything else
+        touches the collections (cached counts are an observable of their own)"""
+        out = {}
+        for root in self.env.root_entities:
+            for label in self.env.labels_of(root, (1, 2, 3)):
+                try: obj = self.resolve(label)
+                except Skip: continue
+                for a in type(obj)._attrs_:
+                    if a.is_collection:
+                        c = getattr(obj, a.name)
+                        out['%s.%s' % (label, a.name)] = (c.count(), c.is_empty())
         return out
 
     def op_view_created(self):
